@@ -119,11 +119,12 @@ impl<const N: usize> NodeVersions<N> {
             .min();
 
         if let Some(min) = min {
-            let ts = HLCTimestamp::new(
-                min.datacake_timestamp().saturating_sub(FORGIVENESS_PERIOD),
-                min.counter(),
-                min.node(),
-            );
+            // If the forgiveness period reaches back past the start of time, no event
+            // can be safely considered as observed yet.
+            let ts = match min.datacake_timestamp().checked_sub(FORGIVENESS_PERIOD) {
+                Some(cut_off) => HLCTimestamp::new(cut_off, min.counter(), min.node()),
+                None => HLCTimestamp::new(Duration::from_secs(0), 0, node),
+            };
             self.safe_last_stamps.insert(node, ts);
         }
     }
